@@ -23,6 +23,10 @@ func installHook(h *H, walDir string) {
 
 func removeHook() { walstore.VerifHook = nil }
 
+// setHook installs an arbitrary callback (nil = none) at the hook points; used by the fault-injection
+// check to know which step of a Flush is running and to time faults of the os-level calls.
+func setHook(f func(point string)) { walstore.VerifHook = f }
+
 // processHooks turns the directory copies taken inside the last Flush into crash images.
 // At every point the batch has been synced but Flush has not returned: the batch is "the one
 // being flushed", so the allowed outcomes are A (without it) and B (complete).
